@@ -3,6 +3,7 @@ package keeper
 // Exported doors for the harnesses that live in package mhub2 (abci.go is there).
 
 import (
+	"bytes"
 	"github.com/ethereum/go-ethereum/common"
 	"math/big"
 
@@ -81,4 +82,46 @@ func (k Keeper) ZZSetValidatorExternalAddress(ctx sdk.Context, chain types.Chain
 }
 func (o *ZZOracle) ZZSetPrice(denom string, p sdk.Dec) {
 	o.Prices = append(o.Prices, zzPrice{denom, p})
+}
+
+// ZZSameState: two environments hold byte-identical module state, bank state and emitted events.
+func ZZSameState(a, b *ZZEnv) bool {
+	sa, sb := a.Store(), b.Store()
+	if len(sa.E) != len(sb.E) {
+		return false
+	}
+	for _, e := range sa.E {
+		v := sb.Get(e.K)
+		if v == nil || !bytes.Equal(v, e.V) {
+			return false
+		}
+	}
+	ea, eb := a.Ctx.EventManager().ABCIEvents(), b.Ctx.EventManager().ABCIEvents()
+	if len(ea) != len(eb) {
+		return false
+	}
+	for i := range ea {
+		if ea[i].Type != eb[i].Type || len(ea[i].Attributes) != len(eb[i].Attributes) {
+			return false
+		}
+		for j := range ea[i].Attributes {
+			if !bytes.Equal(ea[i].Attributes[j].Key, eb[i].Attributes[j].Key) || !bytes.Equal(ea[i].Attributes[j].Value, eb[i].Attributes[j].Value) {
+				return false
+			}
+		}
+	}
+	if len(a.Bank.Bals) != len(b.Bank.Bals) || len(a.Bank.Supply) != len(b.Bank.Supply) {
+		return false
+	}
+	for _, x := range a.Bank.Bals {
+		if !b.Bank.Balance(x.Addr, x.Denom).Equal(x.Amt) {
+			return false
+		}
+	}
+	for _, x := range a.Bank.Supply {
+		if !b.Bank.SupplyOf(x.Denom).Equal(x.Amt) {
+			return false
+		}
+	}
+	return true
 }
